@@ -149,7 +149,13 @@ class Fold:
             h = self.env.get('$' + m)
             if h is None:
                 raise Uncertified("uninterpreted %s in fold" % m)
-            return h(*[self.ev(a) for a in x[2]])
+            args = []
+            for a in x[2]:
+                try:
+                    args.append(self.ev(a))
+                except Uncertified:
+                    args.append(a)  # handler decides whether it needs the argument
+            return h(*args)
         raise Uncertified("model %s in fold" % m)
 
 
